@@ -189,14 +189,14 @@ func (c *Collection) BulkWrite(ctx context.Context, models []mongo.WriteModel, o
 			result.ModifiedCount += int64(len(res.Modified))
 			if res.Upserted != nil {
 				result.UpsertedCount++
-				result.UpsertedIDs[int64(i)] = bsonkit.Get(res.Upserted, "_id")
+				result.UpsertedIDs[int64(i)] = copyValue(bsonkit.Get(res.Upserted, "_id"))
 			}
 		case Update:
 			result.MatchedCount += int64(len(res.Matched))
 			result.ModifiedCount += int64(len(res.Modified))
 			if res.Upserted != nil {
 				result.UpsertedCount++
-				result.UpsertedIDs[int64(i)] = bsonkit.Get(res.Upserted, "_id")
+				result.UpsertedIDs[int64(i)] = copyValue(bsonkit.Get(res.Upserted, "_id"))
 			}
 		case Delete:
 			result.DeletedCount += int64(len(res.Matched))
@@ -403,8 +403,8 @@ func (c *Collection) Distinct(ctx context.Context, field string, filter interfac
 	// get list
 	list := res.(*Result).Matched
 
-	// collect distinct values
-	values := mongokit.Distinct(list, field)
+	// collect distinct values (copied, as they reference the stored documents)
+	values := copyValue(mongokit.Distinct(list, field)).(bson.A)
 
 	return values, nil
 }
@@ -972,7 +972,7 @@ func (c *Collection) InsertMany(ctx context.Context, documents []interface{}, op
 	result := res.(*Result)
 
 	return &mongo.InsertManyResult{
-		InsertedIDs: bsonkit.Pick(result.Modified, "_id", false),
+		InsertedIDs: copyValue(bsonkit.Pick(result.Modified, "_id", false)).(bson.A),
 	}, result.Error
 }
 
@@ -1020,7 +1020,7 @@ func (c *Collection) InsertOne(ctx context.Context, document interface{}, opts .
 	}
 
 	return &mongo.InsertOneResult{
-		InsertedID: bsonkit.Get(result.Modified[0], "_id"),
+		InsertedID: copyValue(bsonkit.Get(result.Modified[0], "_id")),
 	}, nil
 }
 
@@ -1089,7 +1089,7 @@ func (c *Collection) ReplaceOne(ctx context.Context, filter, replacement interfa
 	if result.Upserted != nil {
 		return &mongo.UpdateResult{
 			UpsertedCount: 1,
-			UpsertedID:    bsonkit.Get(result.Upserted, "_id"),
+			UpsertedID:    copyValue(bsonkit.Get(result.Upserted, "_id")),
 		}, nil
 	}
 
@@ -1179,7 +1179,7 @@ func (c *Collection) UpdateMany(ctx context.Context, filter, update interface{},
 	if result.Upserted != nil {
 		return &mongo.UpdateResult{
 			UpsertedCount: 1,
-			UpsertedID:    bsonkit.Get(result.Upserted, "_id"),
+			UpsertedID:    copyValue(bsonkit.Get(result.Upserted, "_id")),
 		}, nil
 	}
 
@@ -1254,7 +1254,7 @@ func (c *Collection) UpdateOne(ctx context.Context, filter, update interface{}, 
 	if result.Upserted != nil {
 		return &mongo.UpdateResult{
 			UpsertedCount: 1,
-			UpsertedID:    bsonkit.Get(result.Upserted, "_id"),
+			UpsertedID:    copyValue(bsonkit.Get(result.Upserted, "_id")),
 		}, nil
 	}
 
